@@ -99,7 +99,7 @@ def run_c14(prop, tier, seed, scratch):
         cfgs.append(dict(name="lists-long", family="views", tokens=[("nil", 0), ("int", 1), ("float", 2), ("str", 1), ("O", 1), ("L", 1)], maxlen=6))
     return run_views(prop, tier, seed, scratch, cfgs,
                      "TLC enumerates every list up to the length bound over the element alphabet (all seven kinds, duplicates, two objects) and every object over "
-                     "the key tokens, and computes per kind the selected (index, element) sequence, AllX and AllNumeric; the harness builds each container four ways "
+                     "the key tokens, and computes per kind the selected (index, element) sequence, AllX and AllNumeric; the harness builds each container four ways (plus extreme-valued, derived-element and zero-valued concretisations: \"\", 0, 0.0, false, empty containers) "
                      "and runs every typed/untyped ForEach, Map, Filter, Reduce, slice and All method with free callbacks (call logs, injective tags, order-sensitive "
                      "folds, call-number predicates), also after an All*;Insert / Replace;Delete history. distinct_nontrivial = distinct containers.")
 
